@@ -305,6 +305,8 @@ class Routine:
                     none_bad = (0 in bad_vals) or (bad_other and not any(v == 0 for v, _ in t["arms"]))
                     if oe and none_bad:
                         cls = oe
+                    elif isinstance(inner, tuple) and inner[0] == "call" and none_bad and self.returns_option(inner):
+                        cls = ("ISNONE", inner)
                     elif isinstance(inner, tuple) and inner[0] == "call":
                         cls = ("MATCH", inner)
                     else:
@@ -361,6 +363,15 @@ class Routine:
                             self.exits.append(Exit("err", b, ex[0], cls=oe or ("OTHER", p[3][0]),
                                                    err=self.norm_err("err", p[3][1], mapping)))
 
+    def returns_option(self, call):
+        t = self.body.site_term(call[4]) if hasattr(self.body, "site_term") else None
+        if not t:
+            return False
+        d = t.get("dst")
+        if d and not d["p"]:
+            return self.body.local_ty(d["l"]).startswith("std::option::Option<")
+        return False
+
     def inlineable(self, callee_body):
         """private helpers (not part of the public API) are inlined; public routines stay DELEGATE exits"""
         return callee_body is not None and callee_body.key not in self.prog.exported and not callee_body.is_closure
@@ -406,6 +417,8 @@ class Routine:
                 pc = strip(E[3][0])
                 if isinstance(pc, tuple) and pc[0] == "call" and pc[1] == "partial_cmp" and len(pc[3]) == 2:
                     return ("NOORDER", strip(pc[3][0]), strip(pc[3][1])), None
+                if isinstance(pc, tuple) and pc[0] == "call":
+                    return ("ISNONE", pc), None
                 return ("OTHER", E), None
             dl = self.find_delegate(E)
             if dl is not None:
@@ -444,9 +457,7 @@ class Routine:
                 return ("converted", fr_ty, to_ty, fmt(inner_try) if inner_try is not None else "?")
             return self.convert(val, fr_ty, to_ty)
         e = strip(payload) if payload is not None else None
-        if mapping and e is not None:
-            e = subst(e, mapping)
-        # into()/from()
+        # into()/from()  (resolved with this body's own call sites, i.e. before any substitution of caller arguments)
         for _ in range(5):
             if isinstance(e, tuple) and e[0] == "call" and e[1] in ("into", "from") and len(e[3]) == 1:
                 inner = strip(e[3][0])
@@ -461,6 +472,8 @@ class Routine:
                 e = self.convert(inner, fr_ty, to_ty)
                 continue
             break
+        if mapping and e is not None:
+            e = subst(e, mapping)
         return e
 
     def convert(self, val, fr_ty, to_ty):
@@ -922,7 +935,7 @@ def rule_r6(ctx, prog, rule="R6", only=None):
                 continue
             if kind == "BINNOTFOUND":
                 inner = strip(c[1]) if len(c) > 1 else None
-                okc = c[0] == "MATCH" and isinstance(inner, tuple) and inner[0] == "call" and inner[1] == "index_of" and var == "BinNotFound"
+                okc = c[0] in ("MATCH", "ISNONE") and isinstance(inner, tuple) and inner[0] == "call" and inner[1] == "index_of" and var == "BinNotFound"
                 if okc:
                     g = strip(inner[3][0])
                     okc = isinstance(g, tuple) and g[0] == "field" and g[2] == "grid" and is_p(g[1], 1) and is_p(inner[3][1], 2)
